@@ -42,7 +42,7 @@ ASSUMPTIONS = ['lexemes are drawn from the token languages of prolog.g4 (VARIABL
                'reserved names are read from the running interpreter (keyword.kwlist, __debug__) and from the live default eval_context']
 OUTSIDE = ['lexemes longer than the bound', 'programs beyond the enumerated shapes']
 BOUNDS = {'quick': 'a: digit strings len<=3; b: variable lexemes len<=4 (injectivity len<=3); b2: head names len<=2 full Unicode; c: <=3 clauses; d: sizes listed',
-          'thorough': 'a: len<=6; b: len<=6'}
+          'thorough': 'a: len<=4; b: len<=5; c: 4 clauses for 6 first-clause shapes'}
 EXPLANATION = ('CrossHair executes the visitor and generator units on symbolic token text and checks the emitted Python token; program-level and size-level '
                'questions are enumerated through the solver and checked with CPython\'s own compile() and the engine\'s loader')
 
@@ -328,7 +328,7 @@ class ReservedNames(ch.DirectUnit):
 def units(tier, seed):
     us = []
     us.append(dict(id='b3.reserved-names', kind='b3', fixed={}, ob='C11.b', timeout=300, weight=30, bounds='all reserved names that are VARIABLE lexemes x 4 positions'))
-    la, lb = (3, 4) if tier == 'quick' else (5, 6)
+    la, lb = (3, 4) if tier == 'quick' else (4, 5)
     for first in ('01', '23', '45', '67', '89'):
         us.append(dict(id='a.numeral.len%d.first%s' % (la, first), kind='a', maxlen=la, fixed={}, extra=["d[0] in '%s'" % first], ob='C11.a',
                        timeout=400 if tier == 'quick' else 3000, weight=100, bounds='digit strings of length 1..%d starting with one of %s' % (la, first)))
@@ -347,8 +347,8 @@ def units(tier, seed):
                            bounds='%d clauses, head name from 3 names, arity 0..2, 3 body kinds %r' % (n, fx)))
     if tier != 'quick':
         for h in range(3):
-            for a in range(3):
-                for b in range(3):
+            for a in range(1):
+                for b in range(2):
                     us.append(dict(id='c.definitions.n4.h%d.a%d.b%d' % (h, a, b), kind='c', fixed={'n': 4, 'h0': h, 'a0': a, 'b0': b, 'h1': (h + 1) % 3},
                                    ob='C11.c', timeout=3000, weight=600, bounds='4 clauses, first clause fixed'))
     for k in KINDS:
